@@ -743,7 +743,31 @@ pub fn run(ctx: &RunCtx, flavor: Flavor) -> Report {
     } else {
         None
     };
-    let _ = sim.add_raw(boot_peer, None);
+    // public plans, 1 run in 2: the bootstrap peer stays silent until some instant of the history and then
+    // answers, reporting the server's true address: the server confirms it with a self-ping and switches to
+    // a BEP42-secure id in the middle of the history (tokens already handed out must stay good)
+    let boot_answers_from: Option<u64> = if public && cfg.chance(1, 2) { Some(*cfg.pick(&[1u64, 5, 30, 120, 400, 900, 2000]) * SEC) } else { None };
+    if let Some(from_t) = boot_answers_from {
+        let boot_id = cfg.id();
+        let _ = sim.add_raw(
+            boot_peer,
+            Some(Box::new(move |rctx, from, bytes| {
+                if rctx.now < from_t {
+                    return;
+                }
+                if let Some(k) = Krpc::parse(bytes) {
+                    if k.is_query() {
+                        let o = MsgOpts { ip: Some(from), ..MsgOpts::default() };
+                        let r = Value::dict(vec![("id", Value::bytes(&boot_id)), ("nodes", Value::Bytes(vec![]))]);
+                        rctx.reply(from, krpc::response(&k.tid, r, &o));
+                    }
+                }
+            })),
+        );
+        report.probe("bootstrap_peer_answers_late_with_address_vote", 1);
+    } else {
+        let _ = sim.add_raw(boot_peer, None);
+    }
 
     let mut clients: Vec<Client> = client_addrs
         .iter()
@@ -829,6 +853,7 @@ pub fn run(ctx: &RunCtx, flavor: Flavor) -> Report {
     };
 
     let keepalive = flavor == Flavor::C15 && cfg.chance(1, 4);
+    let flood_at: Option<usize> = if flavor == Flavor::C15 && depth >= 3 && cfg.chance(1, 40) { Some(cfg.usize(1, depth - 1)) } else { None };
     let mut keepalives = 0u64;
     for i in 0..depth {
         let mut r = Rng::new(crate::rng::key(ctx.seed, &[crate::rng::tag("op"), i as u64]));
@@ -866,6 +891,26 @@ pub fn run(ctx: &RunCtx, flavor: Flavor) -> Report {
             continue;
         }
         learn(&mut clients, &mut foreign_tokens, sim.now());
+        // C15, 1 run in 40: a burst of 1100..3300 writes with guessed tokens from one client, within a few
+        // seconds, somewhere in the history: each is rejected with 203, and none of them may touch the validity
+        // of the tokens honest clients hold
+        if flood_at == Some(i) {
+            let fc = clients.len() - 1;
+            let n = *r.pick(&[1100usize, 2200, 3300]);
+            for j in 0..n {
+                let c = &mut clients[fc];
+                c.next_tid += 1;
+                let tid = krpc::tid_bytes(c.next_tid);
+                let guess = (j as u32).wrapping_mul(2_654_435_761).to_be_bytes().to_vec();
+                let v = imm_values[0].clone();
+                let bytes = krpc::query(&tid, "put", krpc::put_immutable_args(&c.id, &krpc::immutable_target(&v), &v, &guess), &opts);
+                sim.raw_send(c.addr, server_addr, bytes);
+                sim.run_for(MS);
+            }
+            report.probe("guessed_token_floods", 1);
+            report.probe("guessed_token_flood_writes", n as u64);
+            plan.push(format!("op[{i}] flood of {n} put_immutable with guessed tokens from {}", clients[fc].addr));
+        }
         let ci = r.usize(0, clients.len() - 1);
         // most writers look up first (token acquisition), like a real client
         if clients[ci].tokens.is_empty() && r.chance(3, 4) {
